@@ -153,6 +153,7 @@ class Walker:
         self.force_inline = set(force_inline)
         self._qual_index: Dict[str, Optional[FuncInfo]] = {}
         self.opaque = opaque  # in deep mode: qualified names that are never looked through (the anchor table)
+        self.memo_transparent = False  # set by a rule that separately checks memoised functions (pure, immutable result)
         self._site = 0
         self._simple_cache: Dict[int, bool] = {}
         self._writes_cache: Dict[Tuple[str, str], set] = {}
@@ -250,7 +251,10 @@ class Walker:
 
     def _elem_class(self, cont: tuple, st: State) -> Optional[ClassInfo]:
         depth = 1
-        while cont[0] in ("sub", "it"):
+        while cont[0] in ("sub", "it", "slice"):
+            if cont[0] == "slice":
+                cont = cont[1]  # a slice of a list holds the same kind of elements
+                continue
             cont = cont[1] if cont[0] == "sub" else cont[2]
             depth += 1
         if cont[0] == "f":
@@ -1498,7 +1502,7 @@ class Walker:
             want = (force or self.is_simple(f)) and rec < 1
         if _is_generator(f):
             want = False
-        opaque = [d for d in f.decorators if not _transparent_decorator(d)]
+        opaque = [d for d in f.decorators if not _transparent_decorator(d) and not (self.memo_transparent and _memo_decorator(d))]
         if opaque:
             want = False  # a wrapping decorator (cache, retry, ...) changes what a call returns: never look through it
         if want and depth_ok:
@@ -1615,6 +1619,10 @@ def _tuple_compare(test) -> bool:
         return True
     return len(test.ops) == 1 and isinstance(test.ops[0], (ast.In, ast.NotIn)) and isinstance(test.comparators[0], (ast.Tuple, ast.List, ast.Set)) \
         and 0 < len(test.comparators[0].elts) <= 4
+
+
+def _memo_decorator(d: str) -> bool:
+    return d.split("(")[0] in ("lru_cache", "functools.lru_cache", "cache", "functools.cache")
 
 
 def _transparent_decorator(d: str) -> bool:
